@@ -517,6 +517,21 @@ def ret_alts(graph):
     return out
 
 
+def _n_items(idx):
+    return len(idx.args[0]) if isinstance(idx, T) and idx.op == 'tuple' else 1
+
+
+def _plain_index_items(idx):
+    """items of an index without its trailing full slices, or None if the index contains `...`, None or a starred part"""
+    items = list(idx.args[0]) if isinstance(idx, T) and idx.op == 'tuple' else [idx]
+    for x in items:
+        if not isinstance(x, T) or x.op == 'star' or (x.op == 'const' and (x.args[0] is None or x.args[0] is Ellipsis)):
+            return None
+    while len(items) > 1 and is_full_slice(items[-1]):
+        items.pop()
+    return items
+
+
 def struct_eq_modulo(a, b, pairs, depth=0):
     """structural equality of two terms where the designated pairs of leaves (x in a, y in b) count as equal"""
     if a is b:
@@ -530,6 +545,12 @@ def struct_eq_modulo(a, b, pairs, depth=0):
         a2, b2 = strip_views(a), strip_views(b)
         if a2 is not a or b2 is not b:
             return struct_eq_modulo(a2, b2, pairs, depth + 1)
+        if a.op == 'sub' and b.op == 'sub':
+            # x[i, :] and x[i] select the same: trailing full slices of a plain index (no `...`, no None) do not matter
+            ia, ib = _plain_index_items(a.args[1]), _plain_index_items(b.args[1])
+            if ia is not None and ib is not None and (len(ia) != _n_items(a.args[1]) or len(ib) != _n_items(b.args[1])):
+                return struct_eq_modulo(a.args[0], b.args[0], pairs, depth + 1) and len(ia) == len(ib) and \
+                    all(struct_eq_modulo(x, y, pairs, depth + 1) for x, y in zip(ia, ib))
         if a.op != b.op or len(a.args) != len(b.args):
             return False
         if a.op == 'param':
@@ -829,6 +850,11 @@ def last_axis_product_sum(t):
     """t == sum over the LAST axis of an elementwise product: np.sum(a * b, axis=-1[, keepdims]) | np.sum(x ** 2, -1) | np.sum(np.square(x), -1) |
     np.einsum('...d,...d->...', a, b)  ->  (a, b, keepdims) with a is b for a sum of squares; else None"""
     t = strip_views(t)
+    if t.op == 'sub':
+        ins = newaxis_insertions(t)
+        if ins is not None and ins[1] in ([-1],):
+            r = last_axis_product_sum(ins[0])          # reduce(...)[..., None] is the keepdims form
+            return (r[0], r[1], True) if r is not None and not r[2] else None
     if is_call_to(t, 'numpy.einsum'):
         n, pos, kw = call_parts(t)
         if len(pos) == 3 and isinstance(const_val(pos[0]), str):
@@ -854,6 +880,74 @@ def last_axis_product_sum(t):
     if is_call_to(x, 'numpy.square'):
         b = strip_views(call_arg(x, 0))
         return b, b, kd
+    return None
+
+
+def abs_square_operand(t):
+    """t is |x|^2 elementwise, spelled abs(x) ** 2 | abs(x) * abs(x) | (conj(x) * x)[.real] | x.real ** 2 + x.imag ** 2 | x ** 2 / x * x (real x): -> x, else None"""
+    t = strip_views(t)
+    if t.op == 'attr' and t.args[1] == 'real':
+        inner = abs_square_operand(t.args[0])
+        return inner if inner is not None and _is_conj_product(strip_views(t.args[0])) else None
+    if is_call_to(t, 'numpy.real') and call_arg(t, 0) is not None:
+        return abs_square_operand(call_arg(t, 0)) if _is_conj_product(strip_views(call_arg(t, 0))) else None
+    if t.op == 'binop' and t.args[0] == 'Pow' and const_val(t.args[2]) == 2:
+        b = strip_views(t.args[1])
+        return strip_views(call_arg(b, 0)) if is_call_to(b, 'numpy.abs', 'builtin.abs') else b
+    if t.op == 'binop' and t.args[0] == 'Mult':
+        a, b = strip_views(t.args[1]), strip_views(t.args[2])
+        if _is_conj_product(t):
+            return b if is_conj_of(a, b) else a
+        if a is b or struct_eq(a, b):
+            return strip_views(call_arg(a, 0)) if is_call_to(a, 'numpy.abs', 'builtin.abs') else a
+    if t.op == 'binop' and t.args[0] == 'Add':
+        parts = []
+        for side in (t.args[1], t.args[2]):
+            sd = strip_views(side)
+            if sd.op == 'binop' and sd.args[0] == 'Pow' and const_val(sd.args[2]) == 2 and strip_views(sd.args[1]).op == 'attr' and strip_views(sd.args[1]).args[1] in ('real', 'imag'):
+                parts.append((strip_views(sd.args[1]).args[1], strip_views(strip_views(sd.args[1]).args[0])))
+        if len(parts) == 2 and {parts[0][0], parts[1][0]} == {'real', 'imag'} and (parts[0][1] is parts[1][1] or struct_eq(parts[0][1], parts[1][1])):
+            return parts[0][1]
+    return None
+
+
+def is_conj_of(a, b):
+    """a == conj(b) (function or method form)"""
+    a = strip_views(a)
+    if is_call_to(a, 'numpy.conj'):
+        x = strip_views(call_arg(a, 0))
+        return x is strip_views(b) or struct_eq(x, strip_views(b))
+    return False
+
+
+def _is_conj_product(t):
+    if not (isinstance(t, T) and t.op == 'binop' and t.args[0] == 'Mult'):
+        return False
+    a, b = strip_views(t.args[1]), strip_views(t.args[2])
+    return is_conj_of(a, b) or is_conj_of(b, a)
+
+
+def as_norm(t):
+    """t is the Euclidean norm of x along one axis: np.linalg.norm(x, axis=k[, keepdims]) (default ord) or spelled out as sqrt(sum(|x|^2, axis=k[, keepdims]))
+    -> (x, axis term, keepdims bool) else None"""
+    t = strip_views(t)
+    if is_call_to(t, 'numpy.linalg.norm'):
+        o = call_arg(t, 1, 'ord')
+        if o is not None and const_val(o) not in (None, 2):
+            return None
+        kd = call_arg(t, 3, 'keepdims')
+        return strip_views(call_arg(t, 0)), call_arg(t, 2, 'axis'), bool(kd is not None and const_val(kd) is True)
+    if is_call_to(t, 'numpy.sqrt'):
+        sm = strip_views(call_arg(t, 0))
+        if is_call_to(sm, 'numpy.sum'):
+            x = abs_square_operand(call_arg(sm, 0, 'a'))
+            if x is not None:
+                kd = call_arg(sm, 3, 'keepdims')
+                return x, call_arg(sm, 1, 'axis'), bool(kd is not None and const_val(kd) is True)
+        if is_call_to(sm, 'numpy.einsum'):
+            r = last_axis_product_sum(sm)
+            if r is not None and (is_conj_of(r[0], r[1]) or is_conj_of(r[1], r[0])):
+                return (r[1] if is_conj_of(r[0], r[1]) else r[0]), T('const', (-1,)), r[2]
     return None
 
 
